@@ -319,6 +319,7 @@ def run(ctx):
         "exhaustive over the stated lattice only; tuples outside it are not covered",
         "ambient configurations: mpmath.mp.dps in {1,15,30,100} and mp.prec=20 set before the call",
     ]
+    coverage["rule"] += ("; moves with rate x T and accel x T^2 just below 2^52, 2^53, 2^63, 2^64 and every large constant of the module's source, T odd and even around every power of two and 3 x 2^k from 2^10 (product_bound_rows)")
     return {"part": part, "coverage": coverage, "assumptions": assumptions}
 
 
